@@ -7,6 +7,13 @@ open MV MV.UDist
 def rtolP : Rat := 1 / 1000000000
 def atolP : Rat := 1 / 1000000000000
 
+/-- Tied counts are divided by `Choose(N1+N2,N1)`, which the code evaluates as `exp` of a difference of
+`lgamma` values of size about (N+1)·ln(N+1): its relative accuracy is a few ulps of that size (1e-13 at
+N = 50, 4e-8 at N = 2·10⁶) and no formula of this shape delivers more. -/
+def rtolUD (n1 n2 : Nat) : Rat :=
+  let n := n1 + n2 + 1
+  rtolP + ((n * (Nat.log2 n + 1) : Nat) : Rat) / pow2 50
+
 def handleUD (ins outs : List J) : Verdict :=
   match ins, outs with
   | [n1J, n2J, tJ, .atom what, uJ], [outJ] =>
@@ -16,14 +23,17 @@ def handleUD (ins outs : List J) : Verdict :=
       let ntag := (if (ties && t.length ≥ 2) || (!ties && n1 + n2 ≥ 6) then "nt" else "tr") ++
         (if ties then " tied" else " untied") ++ (if n1 + n2 > 14 then " large" else " small")
       if what == "cdf" then
-        let m := if !ties && n1 + n2 > 40 then cdfUntiedMW n1 n2 u else cdf n1 n2 t u
+        -- few ranks or a small first sample in a large pool: the allocation vectors of the right sum are far
+        -- fewer than the attainable statistics (`cdfSparse_eq_cdf`)
+        let sparse := ties && sparseCost t n1 * 64 < 2 * n1 * n2
+        let m := if sparse then cdfSparse n1 n2 t u else if !ties && n1 + n2 > 40 then cdfUntiedMW n1 n2 u else cdf n1 n2 t u
         -- cross-check of the two executable tables on small untied cases
         let cross := ties || n1 + n2 > 12 || cdfUntiedMW n1 n2 u == cdf n1 n2 t u
         verdictOf ntag
           [("model-tables-agree", cross, "fwdDP vs Mann-Whitney table"),
            -- a CDF value is a sum of non-negative counts over one binomial coefficient: it is held to its own
            -- size (1e-9 relative) however small; the absolute allowance only covers values rounding to 1
-           ("udist-cdf", closeV go (.fin m) (if m < 1 / 2 then 1 / pow2 1000 else atolP) rtolP, s!"go={go.str} model={ratStr m}")]
+           ("udist-cdf", closeV go (.fin m) (if m < 1 / 2 then 1 / pow2 1000 else atolP) (rtolUD n1 n2), s!"go={go.str} model={ratStr m}")]
       else if what == "pmf" then
         let n12 : Rat := ((n1 * n2 : Nat) : Rat)
         if u < 0 || u ≥ n12 + 1 / 2 then
@@ -33,9 +43,9 @@ def handleUD (ins outs : List J) : Verdict :=
           let onGrid := if ties then ((2 * u).floor : Rat) == 2 * u else (u.floor : Rat) == u
           if !onGrid then .skip "pmf off-grid"
           else
-            let m := pmfAt n1 n2 t twoU
+            let m := if ties && sparseCost t n1 * 64 < 2 * n1 * n2 then pmfAtSparse n1 n2 t twoU else pmfAt n1 n2 t twoU
             if m == 0 then .skip "pmf unattainable"
-            else verdictOf ntag [("udist-pmf", closeV go (.fin m) atolP rtolP, s!"go={go.str} model={ratStr m}")]
+            else verdictOf ntag [("udist-pmf", closeV go (.fin m) atolP (rtolUD n1 n2), s!"go={go.str} model={ratStr m}")]
       else .badOp "ud: what"
     | _, _, _, _, _ => .badOp "ud: parse"
   | [n1J, n2J, _tJ, .atom "bounds"], [loJ, hiJ, stepJ] =>
